@@ -38,8 +38,21 @@ def gen_node(seed, tier):
                 # ISO-TP broadcast (BAM) carrying a payload: control and data frames must not be delivered, the payload once
                 payload = bytes([k & 255] + [r.randrange(256) for _ in range(r.choice([9, 14, 20]))])
                 ops.append(tp_rts(130816, sender, 255, len(payload), bam=True))
-                for j in range((len(payload) + 6) // 7):
-                    ops.append(tp_dt(sender, 255, j + 1, payload[j * 7:(j + 1) * 7]))
+                npk = (len(payload) + 6) // 7
+                lost = r.randrange(1, npk + 1) if r.random() < 0.3 else 0        # a lost packet: the rest of the session are orphan data frames
+                for j in range(npk):
+                    if j + 1 != lost:
+                        ops.append(tp_dt(sender, 255, j + 1, payload[j * 7:(j + 1) * 7]))
+            y = r.random()
+            if y < 0.08:
+                # a stray transport data / control frame that belongs to no session: consumed, never delivered
+                ops.append(r.choice([tp_dt(90 + k % 5, r.choice(own + [255]), r.choice([1, 2, 7]), bytes(r.randrange(256) for _ in range(7))),
+                                     tp_cm(90 + k % 5, r.choice(own), r.choice([17, 19, 255]), 1, 1, 255, 255, 130816)]))
+            elif y < 0.16:
+                # a fast packet with a lost or repeated frame: nothing of it is delivered, and nothing else is (no empty message either)
+                fr = sender_stream(r, r.choice([129029, 127489]), 95 + k % 3, 255, bytes([k & 255] + [r.randrange(256) for _ in range(r.choice([20, 30]))]))
+                z = r.randrange(1, len(fr))
+                ops += (fr[:z] + fr[z + 1:]) if r.random() < 0.6 else (fr[:z] + [fr[z - 1]] + fr[z:])
             if r.random() < 0.1:
                 ops.append('P')
         ops += ['P'] * (3 + nmsg // 8)
@@ -66,11 +79,15 @@ def complete_messages(ops):
             pgn = (idv >> 8) & 0x1ffff; dst = 255
         if pgn == 60416:
             if buf[0] == 32:
-                tp[(src, dst)] = [buf[5] | buf[6] << 8 | buf[7] << 16, buf[1] | buf[2] << 8, []]
+                tp[(src, dst)] = [buf[5] | buf[6] << 8 | buf[7] << 16, buf[1] | buf[2] << 8, [], 0]
             continue
         if pgn == 60160:
             s = tp.get((src, dst))
             if s is not None:
+                if buf[0] != s[3] + 1:          # a gap ends the session: nothing of it is delivered
+                    del tp[(src, dst)]
+                    continue
+                s[3] = buf[0]
                 s[2] += buf[1:8]
                 if len(s[2]) >= s[1]:
                     exp.append((s[0], src, dst, tuple(s[2][:s[1]])))
@@ -78,8 +95,12 @@ def complete_messages(ops):
             continue
         if pgn in (129029, 127489, 130816, 126996):
             if buf[0] & 31 == 0:
-                fp[(pgn, src)] = [buf[1], buf[2:8], dst]
+                fp[(pgn, src)] = [buf[1], buf[2:8], dst, buf[0]]
             elif (pgn, src) in fp:
+                if buf[0] != fp[(pgn, src)][3] + 1:       # lost / repeated frame: the message is discarded as a whole
+                    del fp[(pgn, src)]
+                    continue
+                fp[(pgn, src)][3] = buf[0]
                 fp[(pgn, src)][1] += buf[1:8]
             s = fp.get((pgn, src))
             if s and len(s[1]) >= s[0]:
